@@ -366,6 +366,26 @@ theorem parseSize_digits_dot (tbl : List (List Nat × Nat)) (ds : List (Fin 10))
     takeDigits_map_dig ds (Sym.asc 46 :: r.map upperSym) rfl, hds', Bool.false_eq_true, if_false]
   rw [dropWs_of_headNotWs _ rfl, sizeMult_dot]
 
+/-- every suffix the pattern can match is a key of the multiplier dict -/
+theorem sizeMult_ne_keyError (r2 : List Sym) : sizeMult Generated.Config.size_multipliers r2 ≠ .keyError := by
+  intro h
+  obtain ⟨-, ha'⟩ := optLetter_spec scaleLetters r2
+  obtain ⟨-, hb'⟩ := optLetter_spec [73] (optLetter scaleLetters r2).2
+  unfold sizeMult at h
+  dsimp only at h
+  generalize optLetter [73] (optLetter scaleLetters r2).2 = b at h hb'
+  generalize optLetter scaleLetters r2 = a at h ha'
+  split at h
+  · simp at h
+  · split at h
+    · simp at h
+    · rename_i hnone
+      have ha'' : a.1 = [] ∨ a.1 = [75] ∨ a.1 = [77] ∨ a.1 = [71] ∨ a.1 = [84] ∨ a.1 = [80] ∨ a.1 = [69] := by
+        simpa [scaleLetters] using ha'
+      have hb'' : b.1 = [] ∨ b.1 = [73] := by simpa using hb'
+      rcases ha'' with e | e | e | e | e | e | e <;> rcases hb'' with f | f <;> rw [e, f] at hnone <;>
+        revert hnone <;> decide
+
 /-! ### calendar -/
 
 theorem daysBeforeYear_succ (y : Nat) (hy : 1 ≤ y) :
